@@ -21,7 +21,8 @@ from .. import narrow_bool as nb
 from .. import narrow_caps as caps
 
 PID = "C19"
-PROOF_FILES = ["theories/Props/C19.v", "theories/Proofs/GjkCaps.v", "theories/Model/GjkCaps.v", "theories/Gen/NarrowCaps.v"]
+PROOF_FILES = ["theories/Props/C19.v", "theories/Proofs/GjkCaps.v", "theories/Proofs/GjkTermination.v", "theories/Model/GjkCaps.v",
+               "theories/Gen/NarrowCaps.v"]
 LIMIT = 1000
 MAX_FLOAT = 1.7976931348623157e308
 KNOWN_FILE = cm.VERIF / "known_findings_C19.json"
@@ -166,6 +167,58 @@ def finite_ok(r):
                 if r.get(k) is None or not all(math.isfinite(x) for x in r[k]):
                     bad.append(f"{k} = {r.get(k)!r}")
     return bad
+
+
+def targeted_search(R, tier):
+    """The theorem about the capped loops (or the caps reader) no longer checks: look harder for a concrete pair on
+    which an entry point exceeds 1000 support evaluations, hangs or raises, among the streams that drive the capped
+    loops to their caps (touching, identical, flat, lattice, big meshes, needles)."""
+    rng = R.rng
+    cases = []
+    n = 700 if tier == "quick" else 3000
+    for i in range(n):
+        kind = rng.choice(["touch", "touch", "flat", "ident", "bigmesh", "aspect", "lattice"])
+        if kind == "touch":
+            s1, s2, meta = nb.construct_gap(rng, rng.choice(nw.KINDS), rng.choice(nw.KINDS), 0.0,
+                                            stream=rng.choice(["lattice", "moderate", "random"]),
+                                            abs_gap=rng.choice([0.0, 1e-12, -1e-12, 1e-9, -1e-9, 1e-6, -1e-6]))
+        elif kind == "flat":
+            s1, s2, meta = flat_collider(rng), flat_collider(rng), dict(stream="flat")
+            if rng.random() < 0.5:
+                s2 = nw.translate_spec(s2, nw.center_of(s1) - nw.center_of(s2))
+        elif kind == "ident":
+            s1 = nw.gen_collider(rng, rng.choice(nw.KINDS), rng.choice(["lattice", "random"]), spread=3.0)
+            s2, meta = json.loads(json.dumps(s1)), dict(stream="identical")
+        elif kind == "bigmesh":
+            r = nb.bigmesh_pair(rng)
+            if r is None:
+                continue
+            s1, s2, meta = r
+        elif kind == "aspect":
+            s1, s2, meta = aspect_collider(rng, rng.choice(nw.KINDS)), aspect_collider(rng, rng.choice(nw.KINDS)), dict(stream="aspect")
+            u = nw.rand_unit(rng, "random")
+            s2 = nw.translate_spec(s2, nw.support_point(s1, u) + rng.choice([0.0, 1e-6, 0.1]) * u - nw.support_point(s2, -u))
+        else:
+            s1, s2, meta = nw.gen_pair(rng, tier, stream="lattice")
+        ops = [o for o in ops_for(s1, s2) if o["fn"] in ("b_libccd", "b_mpr", "mpr_pen_full", "epa_full", "nesterov_full", "nesterov_prim_full", "b_jolt")]
+        cases.append(dict(c1=s1, c2=s2, meta=dict(meta, search=True), ops=ops))
+    results = nb.run_cases(PID, cases, tag="search")
+    found = 0
+    for c, rr in zip(cases, results):
+        for r in rr:
+            case = dict(c1=c["c1"], c2=c["c2"], meta=c["meta"], result={k: v for k, v in r.items() if k != "tb"})
+            if r.get("support_calls", 0) > LIMIT:
+                found += 1
+                R.failure(f"{r['fn']}: {r['support_calls']} support evaluations (> {LIMIT}) (found by the targeted search)", case, site=r["fn"])
+            elif r.get("exc") in ("TIMEOUT",) or str(r.get("exc", "")).startswith("PROCESS-"):
+                found += 1
+                R.failure(f"{r['fn']}: {r['exc']} (found by the targeted search)", case, site=r["fn"])
+            elif r["fn"] in ("nesterov_full", "nesterov_prim_full") and "exc" not in r and 2 * r.get("iterations", 0) > LIMIT:
+                found += 1
+                R.failure(f"{r['fn']}: {r['iterations']} iterations = {2 * r['iterations']} support evaluations (> {LIMIT}) "
+                          "(found by the targeted search)", case, site=r["fn"])
+    R.cov["targeted_search_cases"] = len(cases)
+    R.cov["targeted_search_failures"] = found
 
 
 def run(tier, seed, replay=None):
@@ -317,12 +370,17 @@ def run(tier, seed, replay=None):
                     R.failure(f"{key}: {r['iterations']} iterations exceed max_interations = {cap}", case, site=site)
                 if r["iterations"] >= cap:
                     bump(f"{key}:hit_iteration_cap")
+                if 2 * (r["iterations"] + 1) > LIMIT:
+                    R.failure(f"{key}: {r['iterations']} iterations = more than {LIMIT} support evaluations (specialised supports bypass the counter)",
+                              case, site=site)
             if r["fn"] == "epa_full" and bounds and r.get("n_epa", 0) > bounds["epa_only"]:
                 R.failure(f"epa: {r['n_epa']} support evaluations exceed the proven bound {bounds['epa_only']}", case, site=site)
             for b in finite_ok(r):
                 R.failure(f"{key}: {b}", case, site=site)
         if nontrivial:
             distinct.add(cm.canon_hash([s1, s2, c.get("same_object", False)]))
+    if R.proof_broken and not R.violations and not replay:
+        targeted_search(R, tier)
     R.cov["distinct_nontrivial"] = len(distinct)
     R.cov["entry_point_calls"] = calls_total
     R.cov["max_support_evaluations_per_entry_point"] = maxcalls
